@@ -52,9 +52,11 @@ def main():
     ctx = vlib.Ctx(a.pid, tier, seed)
     mod = importlib.import_module("checks." + a.pid)
     try:
-        if a.replay:
-            return mod.replay(ctx, a.replay)
-        mod.run(ctx)
+        if a.replay and hasattr(mod, "replay"):
+            mod.replay(ctx, a.replay)
+        else:
+            # no dedicated replayer: re-run the check (corpus and seed are deterministic)
+            mod.run(ctx)
     except vlib.CheckError as e:
         # the check could not be carried out on this tree (e.g. the sources no longer compile in
         # the harness): the property is no longer shown to hold
